@@ -96,16 +96,26 @@ class Net(nn.Module):
 class ScriptSolver(nn.Module):
     def __init__(self, script, net):
         super().__init__()
-        self.script, self.net, self.j = list(script), net, 0
+        self.script, self.net, self.j, self.raise_at = list(script), net, 0, -1
         self.entries = []       # per call: (symbol, params at entry)
+        self.xmax = []          # per call: max |returned step| (0 when the solver raised)
+
+    def begin_call(self, k_asc):
+        """put k ascents in front of what this call will consume"""
+        if k_asc > 0:
+            self.script = self.script[:self.j] + ["asc"] * k_asc + self.script[self.j:]
 
     def forward(self, A, b):
         sym = self.script[self.j] if self.j < len(self.script) else "ok"
+        if self.j == self.raise_at:
+            sym = "raise:RuntimeError"
         self.j += 1
         self.entries.append((sym, self.net.state()))
+        self.xmax.append(0.0)
         if sym.startswith("raise:"):
             raise EXCS[sym.split(":")[1]]("scripted solver failure")
         x = torch.linalg.pinv(A) @ b
+        self.xmax[-1] = float((SCALE[sym] * x).abs().max()) if x.numel() else 0.0
         return SCALE[sym] * x
 
 
@@ -202,6 +212,16 @@ def state_dist(prob, s1, s2):
     return d
 
 
+def restore_tol(prob, steps):
+    """how far Exp(-D) Exp(D) X (one pair per rejected trial) may be from X: round-off for Euclidean and SO3 parameters; for SE3
+    the translation of Exp is accurate to sqrt(eps) only (C01: pypose evaluates (1 - cos t)/t^2 in closed form down to t = eps), so
+    a rejected step with a ~1e-8 rad rotation part and translation tau comes back up to sqrt(eps) |tau| away"""
+    tol = 1e-9 * max(1.0, max(steps, default=0.0))
+    if prob.gkind == "SE3":
+        tol += 4 * math.sqrt(np.finfo(np.float64).eps) * sum(steps)
+    return tol
+
+
 def retract_state(prob, s, D):
     th = s[0] + D[:prob.n]
     X = None
@@ -219,6 +239,8 @@ def run_history(case, rec):
     kern, kd = case["kernel"], case["kdelta"]
     net = Net(prob)
     solver = ScriptSolver(case["script"], net)
+    solver.raise_at = int(case.get("raise_at", -1))
+    lead = min(int(case.get("lead", 0)), case["reject"] + 1)
     strat = RecStrategy(make_strategy(case["strategy"]))
     kobj = KERNELS[kern](kd) if kern else None
     with rec.sut("LM()"):
@@ -230,12 +252,20 @@ def run_history(case, rec):
     pattern = []
     for stepi in range(case["nsteps"]):
         e0, l0 = len(solver.entries), len(strat.log)
+        if lead and stepi == int(case.get("lead_at", 0)):
+            solver.begin_call(lead)
         with rec.sut("LM.step"):
             ret = opt.step(torch.zeros(1))
         entries = solver.entries[e0:]
         logs = strat.log[l0:]
         cur = net.state()
         true_loss = hl(cur)
+        xm = solver.xmax[e0:]
+        finite_state = bool(np.all(np.isfinite(cur[0])) and (cur[1] is None or np.all(np.isfinite(cur[1]))))
+        if not finite_state and not (_big(prev_state) or any(_big(st_) for _, st_ in entries) or any(not math.isfinite(v) or v > 1e4 for v in xm)):
+            # bounded parameters, bounded finite steps, yet NaN/Inf parameters after the call: nothing in the stated domain excuses that
+            rec.fail("nonfinite_parameters", "step %d left non-finite parameters although every trial started from bounded parameters and every solver answer was finite (trials %s, max |step| %s)" % (stepi, [s_ for s_, _ in entries], xm))
+            break
         if not (math.isfinite(true_loss) and true_loss < 1e12) or _big(cur) or any(_big(st_) for _, st_ in entries):
             # diverged parameters make the forward evaluation itself ill-conditioned (atan of 1e13-sized cancelling sums):
             # outside the stated domain (bounded step scale) - stop this history here
@@ -253,15 +283,18 @@ def run_history(case, rec):
         # (3) every trial starts from the parameters the call started with (rejected trials are restored)
         for t_i, (sym, st_) in enumerate(entries):
             d = state_dist(prob, st_, prev_state)
-            rec.notes["restore"] = max(rec.notes.get("restore", 0), d / 1e-9)
-            rec.check(d <= 1e-9, "restore", lambda: "step %d trial %d (%s) started from parameters %.3g away from those before the previous (rejected) trial" % (stepi, t_i, sym, d))
+            tol_r = restore_tol(prob, xm[:t_i])
+            rec.notes["restore"] = max(rec.notes.get("restore", 0), d / tol_r)
+            rec.check(d <= tol_r, "restore", lambda: "step %d trial %d (%s) started from parameters %.3g away from those before the previous (rejected) trial (tol %.3g)" % (stepi, t_i, sym, d, tol_r))
         if ntr >= 2:
             any_reject = True
+        if ntr == case["reject"] + 1 and ntr >= 2:
+            rec.label("exhausted:reject%s" % ("0-3" if case["reject"] <= 3 else "4-9" if case["reject"] <= 9 else "10-16"))
         last_sym = entries[-1][0] if entries else "none"
         if last_sym.startswith("raise:"):
             # (4) a raising solver: parameters and loss as before that trial
             d = state_dist(prob, cur, prev_state)
-            rec.check(d <= 1e-9, "raise_restores", lambda: "solver raised at trial %d but parameters moved by %.3g" % (ntr - 1, d))
+            rec.check(d <= restore_tol(prob, xm), "raise_restores", lambda: "solver raised at trial %d but parameters moved by %.3g" % (ntr - 1, d))
             rec.check(abs(float(ret) - prev_loss) <= 1e-9 * max(1.0, abs(prev_loss)), "raise_loss", "solver raised: returned loss %.17g, loss before %.17g" % (float(ret), prev_loss))
         # (2) never worse unless the rejections were exhausted
         if true_loss > prev_loss + 1e-9 * max(1.0, abs(prev_loss)):
@@ -305,8 +338,13 @@ class Histories(Sub):
         return st.fixed_dictionaries({
             "seed": st.integers(0, 10 ** 6), "n": st.integers(1, 3), "gkind": st.sampled_from((None, "SO3", "SE3")), "ill": st.booleans(),
             "kernel": st.sampled_from((None, None, "Huber", "Cauchy")), "kdelta": st.sampled_from((0.3, 1.0)),
-            "strategy": strat_spec, "reject": st.sampled_from((0, 1, 2, 2, 3, 3, 5, 16)), "vectorize": st.booleans(),
-            "nsteps": st.integers(1, ns), "script": st.lists(st.sampled_from(SYMS + ("ok", "asc", "asc", "asc", "big", "big")), min_size=2, max_size=40)})
+            "strategy": strat_spec, "reject": st.one_of(st.sampled_from((0, 1, 2, 2, 3, 3, 5, 16)), st.integers(0, 16)), "vectorize": st.booleans(),
+            "nsteps": st.integers(1, ns), "script": st.lists(st.sampled_from(SYMS + ("ok", "asc", "asc", "asc", "big", "big")), min_size=2, max_size=40),
+            # "the first k trials increase the loss, k = 0..reject+1": i.i.d. symbols never produce 17 ascents in a row, so a run of
+            # `lead` ascents is put in front of the script at call number `lead_at` (lead is cut to reject+1 in the oracle)
+            "lead": st.one_of(st.just(0), st.integers(0, 17)), "lead_at": st.integers(0, 2),
+            # the solver raises at the j-th solve of the run, for j beyond the script too
+            "raise_at": st.one_of(st.just(-1), st.just(-1), st.integers(0, 120))})
 
     def oracle(self, case, rec):
         run_history(case, rec)
